@@ -272,7 +272,12 @@ impl Mux {
                         length -= size;
                     }
                 }
-                _ => unreachable!("bad FrameKind"),
+                kind => {
+                    return Err(RunError::Protocol(anyhow::format_err!(
+                        "bad frame kind {:#06x}",
+                        kind.0
+                    )))
+                }
             }
         }
     }
